@@ -1062,7 +1062,7 @@ fn build_into(model: &AutosarModel, chain: &str, names: &Names, tag: &str) -> Re
     Ok(cur)
 }
 
-/// xattach <dump> <tier> <shard> <nshards>: inside ONE version, for every name that two parent types list with different child
+/// xattach <dump> <tier> <shard> <nshards> [<version>]: inside ONE version, for every name that two parent types list with different child
 /// ElementTypes (c1 below p1, c2 below p2; every ordered pair of child types, one representative pair of parents): build the
 /// child below p1, populate it, and move it (same model: move / from another model: xmove) or copy it (into another model) below p2; then re-load the target file.
 /// quick: the newest, the oldest and the median version; thorough: every version.
@@ -1074,7 +1074,11 @@ pub fn xattach_main(args: &[String]) {
     let shard: usize = args.get(2).map(|x| x.parse().unwrap()).unwrap_or(0);
     let nshards: usize = args.get(3).map(|x| x.parse().unwrap()).unwrap_or(1);
     let vbits = version_bits();
-    let versions: Vec<u32> = if tier == "thorough" { vbits.clone() } else { vec![vbits[vbits.len() - 1], vbits[0], vbits[vbits.len() / 2]] };
+    // an explicit version (replays) overrides the tier
+    let versions: Vec<u32> = match args.get(4).map(|x| x.parse::<u32>().unwrap()) {
+        Some(v) => vec![v],
+        None => if tier == "thorough" { vbits.clone() } else { vec![vbits[vbits.len() - 1], vbits[0], vbits[vbits.len() / 2]] },
+    };
     let by_id: HashMap<(u32, u32), ElementType> = reachable().into_iter().map(|t| (et_ids(&t), t)).collect();
     let (mut combos, mut done, mut skipped, mut bad, mut kept, mut retyped, mut harmless) = (0u64, 0u64, 0u64, 0u64, 0u64, 0u64, 0u64);
     let mut seen_sig: HashSet<String> = HashSet::new();
@@ -1177,6 +1181,9 @@ pub fn xattach_main(args: &[String]) {
                                     let sig = p2s.join(";");
                                     let first = seen_sig.insert(format!("{}|{}", kind, sig));
                                     println!("XATTACH {} stored=({},{}) dt={} {}{}", head, stored.0, stored.1, dt, sig, if first { " FIRST" } else { "" });
+                                    if std::env::var("AVH_RANGE_SHOW").is_ok() {
+                                        println!("XCHAIN {} chain1={} chain2={}", head, chain_of(&parent, *p1), chain_of(&parent, *p2));
+                                    }
                                 }
                             }
                             Ok(Err(m)) => {
